@@ -3,6 +3,7 @@ package main
 import (
 	"fmt"
 	"strings"
+	"time"
 
 	"verif/harness/internal/fakeconsul"
 )
@@ -26,12 +27,14 @@ func c14Poison(c *ctx) {
 		{"urlprefix-/p6 weight=NaN"}, {"urlprefix-/p7 weight=1e400"}, {"urlprefix-/p8 redirect=301,"}, {"urlprefix-/p9\tx"}, {"urlprefix-/[unclosed"}, {"urlprefix-/{"},
 		{"urlprefix-p.test/a\nroute del good0"}, {"urlprefix-/ok", "tab\there"}, {"urlprefix-/p10 weight=5e-324"}, {"urlprefix-legacy.test/caf\uFFFD"}, {"urlprefix-legacy.test/caf\xe9"}, {"urlprefix-/p11 weight=1e308", "x"},
 	}
-	poisonNames := []string{"bad svc", "bad\"svc", "ok-name"}
+	// the last two: names the agent accepts at registration and whose catalog lookup it then refuses for good
+	poisonNames := []string{"bad svc", "bad\"svc", "ok-name", "api\u00a0v2", "tab\tname"}
 	n := c.scale(c.pick(150, 1500))
 	goodPort := map[string]int{}
 	for i := 0; i < n; i++ {
 		ngood := 1 + r.Intn(3)
 		var poison []string
+		refused := false
 		rg.agent.Update(func(nodes map[string]*fakeconsul.Node, insts map[string]*fakeconsul.Instance) {
 			nodes["n0"] = &fakeconsul.Node{Name: "n0", Address: "10.3.0.1", Serf: "passing"}
 			for k := range insts {
@@ -47,9 +50,46 @@ func c14Poison(c *ctx) {
 				name := choose(r, poisonNames)
 				id := fmt.Sprintf("poison%d", p)
 				poison = append(poison, fmt.Sprintf("%q %q", name, tags))
+				refused = refused || strings.ContainsAny(name, "\u00a0\t")
 				insts["n0/"+id] = &fakeconsul.Instance{Node: "n0", ID: id, Name: name, Address: "10.3.0.9", Port: 9000 + p, Tags: tags, Checks: []fakeconsul.Check{{CheckID: "c" + id, Status: "passing"}}}
 			}
 		})
+		if refused { // a registration whose catalog lookup the agent refuses for as long as it exists
+			// the service monitor cannot finish a round while such a registration exists (it keeps asking), so the logical
+			// barrier has nothing to wait for: the good services' routes must simply show up, and a bounded wait decides
+			c.R.Eval(1)
+			c.R.Nontrivial(fmt.Sprintf("%v|%d", poison, i))
+			c.R.Count("steps_with_a_refused_catalog_lookup", 1)
+			deadline := time.Now().Add(10 * time.Second)
+			for {
+				got, err := rg.routes()
+				missing := ""
+				for g := 0; err == nil && g < ngood; g++ {
+					name := fmt.Sprintf("good%d", g)
+					want := fmt.Sprintf("http://10.3.0.2:%d/", goodPort[name])
+					found := false
+					for _, a := range got {
+						found = found || (a.Service == name && a.Host == name+".test" && a.Dst == want)
+					}
+					if !found {
+						missing = name + " -> " + want
+					}
+				}
+				if err == nil && missing == "" {
+					break
+				}
+				if !rg.proc.Alive() {
+					c.R.Violate("c14p:registration-killed-fabio", fmt.Sprintf("fabio died with these registrations in the catalog: %v\n%s", poison, rg.proc.LogTail(2500)), map[string]any{"poison": poison})
+					return
+				}
+				if time.Now().After(deadline) {
+					c.R.Violate("c14p:good-service-blocked-by-poison:catalog-lookup-refused", fmt.Sprintf("step %d: 10s after the change the route %s is still missing while a registration whose catalog lookup the agent refuses is present: %v", i, missing, poison), map[string]any{"poison": poison})
+					return
+				}
+				time.Sleep(100 * time.Millisecond)
+			}
+			continue
+		}
 		if err := rg.barrier(); err != nil {
 			if !rg.proc.Alive() {
 				c.R.Violate("c14p:registration-killed-fabio", fmt.Sprintf("fabio died with these registrations in the catalog: %v\n%s", poison, rg.proc.LogTail(2500)), map[string]any{"poison": poison})
